@@ -361,6 +361,10 @@ class WebSocketApp:
             self._callback(self.on_close, close_status_code, close_reason)
 
         def setSock(reconnecting: bool = False) -> None:
+            if reconnecting and not self.keep_running:
+                # close() was called while the reconnect was pending (an external
+                # dispatcher's timer does not know): no new attempt, finish the run
+                return teardown()
             if reconnecting and self.sock:
                 self.sock.shutdown()
 
